@@ -167,7 +167,8 @@ pub fn layout(s: &[u8]) -> Layout {
 pub const ATTR_VALUES: [&str; 12] = [
     "", "0", "-1", "1", "4294967296", "1e999", "NaN", "A0", "XFE1048577", "A1:", "x", "<10k>",
 ];
-pub const TEXT_VALUES: [&str; 4] = ["", "abc", "-1", "99999999999"];
+/// the last three are look-alikes of the file format's _xHHHH_ escapes: a lone surrogate, NUL, a non-character
+pub const TEXT_VALUES: [&str; 7] = ["", "abc", "-1", "99999999999", "bad_xD800_escape", "a_x0000_b_xDFFF_", "_xFFFF__x005F_"];
 
 fn attr_value(k: usize) -> String {
     if ATTR_VALUES[k] == "<10k>" {
